@@ -55,6 +55,10 @@ pub struct Checker<'a> {
     default_ns: Vec<String>,
     /// spellings of the open start tags that are still owed an end tag
     open_tags: Vec<String>,
+    /// default namespace (vocabulary index) the *tree* declares around the current node and whether
+    /// the output shows that declaration, innermost last; starts with what the ancestors of the
+    /// start node declare (not shown)
+    pub tree_default: Vec<(usize, bool)>,
     pub stats: Vec<&'static str>,
 }
 
@@ -64,7 +68,7 @@ fn squeeze(s: &str) -> String {
 
 impl<'a> Checker<'a> {
     pub fn new(vocab: &'a Vocab, cdata: &'a [usize], pretty: bool, body: &str) -> Self {
-        Checker { vocab, cdata, pretty, tk: Tokenizer::new(body), default_ns: vec![], open_tags: vec![], stats: vec![] }
+        Checker { vocab, cdata, pretty, tk: Tokenizer::new(body), default_ns: vec![], open_tags: vec![], tree_default: vec![], stats: vec![] }
     }
     fn name(&self, id: usize) -> (&str, &str) {
         let (l, ns, _) = &self.vocab.names[id];
@@ -285,6 +289,9 @@ impl<'a> Checker<'a> {
                 },
             }
         }
+        let own_decl = t.kids.iter().find_map(|k| if let GValue::Namespace(0, ns) = k.v { Some(ns) } else { None });
+        let own_shown = |d: usize| default_here.as_deref() == Some(self.vocab.namespaces[d].0.as_str());
+        let tree_decl: Option<(usize, bool)> = own_decl.map(|d| (d, own_shown(d))).or(self.tree_default.last().copied());
         // MathML / SVG: under a default-namespace declaration of their namespace
         let inherited = self.default_ns.last().cloned().unwrap_or_default();
         let in_scope = default_here.clone().unwrap_or(inherited);
@@ -293,7 +300,12 @@ impl<'a> Checker<'a> {
                 // declared by an enclosing start tag of the output but overridden by a nearer one
                 // (the serialiser keeps both bindings of the empty prefix), or declared nowhere
                 // above (the binding injected for an earlier element outlived that element)
-                let sig = if self.default_ns.contains(&uri) {
+                let sig = if tree_decl.map_or(false, |(d, shown)| !shown && self.vocab.namespaces[d].0 == uri) {
+                    // the tree declares this default namespace on an element of another namespace
+                    // (or above the start node): the serialiser hides the declaration but still
+                    // counts it as a binding
+                    "C19:mathml-svg-under-hidden-default-namespace-declaration"
+                } else if self.default_ns.contains(&uri) {
                     "C19:mathml-svg-under-shadowed-default-namespace-declaration"
                 } else {
                     "C19:mathml-svg-without-default-namespace-declaration"
@@ -311,12 +323,18 @@ impl<'a> Checker<'a> {
         let html = class == NsClass::Html;
         let owes_end = !(html && (SPEC_VOID.contains(&lower.as_str()) || LEGACY_VOID.contains(&lower.as_str())));
         self.default_ns.push(in_scope);
+        if let Some(d) = tree_decl {
+            self.tree_default.push(d);
+        }
         if owes_end {
             self.open_tags.push(tag.clone());
         }
         let kids: Vec<&GTree> = t.kids.iter().filter(|k| k.is_normal()).collect();
         self.nodes(&kids, Some(n))?;
         self.default_ns.pop();
+        if tree_decl.is_some() {
+            self.tree_default.pop();
+        }
         if owes_end {
             self.open_tags.pop();
         }
